@@ -73,7 +73,8 @@ Qed.
 Theorem touched_safe steps : gplan_ok S okc okf steps -> forall r, GJ ft Touched r ->
   (forall s, In s (steps_states fl ft r steps) -> no_through (d_events s) -> Touched s) /\ GJ ft Touched (run_steps fl ft r steps).
 Proof.
-  intros Hp r HJ. apply (gplan_safe fl ft S Touched okc okf); [| |exact Hp|exact HJ].
+  intros Hp r HJ. apply (gplan_safe fl ft S Touched okc okf); [| | |exact Hp|exact HJ].
+  - intros st st' E HT q. rewrite E. apply HT.
   - intros st c Hok Hc HT. apply touched_cmd; assumption.
   - intros st p mt full m s Hok HS HT Hs. eapply touched_file; eauto.
 Qed.
